@@ -2,6 +2,7 @@ import Hgxv.Proofs.C07Ops
 import Hgxv.Proofs.C07Json
 import Hgxv.Proofs.C07Link
 import Hgxv.Proofs.C07Heap
+import Hgxv.Proofs.C07Repeat
 import Hgxv.Proofs.C01Ops
 import Hgxv.Proofs.C02All
 import Hgxv.Proofs.C03Inv
@@ -529,4 +530,137 @@ the placeholder for both -/
 example : guardSlots heap [3, 4, 3] = guardSlots heap [3, 4, 4] := by rfl
 example : ¬ (look (values heap) 3 = look (values heap) 4) := by
   intro e; simp [look, values, valuesFrom, cellVal, heap] at e
+end C07Ex
+
+/-! ## richer histories (round e): a setter called again for the same key replaces; a shrunken hyperedge that meets
+an existing one is an `add_edge` on that hyperedge
+
+The seeded changes C07-e3 (`MultiplexHypergraph.set_layer_metadata` MERGES into the record of an earlier call) and
+C07-e1 (`Hypergraph.remove_node(keep_edges=True)` renames the incident hyperedges in place) differ from the model in
+exactly these statements; the harness runs second / third calls of every setter and colliding shrinks in all four
+classes. -/
+
+/-- `set_attr_to_hypergraph_metadata(f, ·)` - and `MultiplexHypergraph.set_layer_metadata(layer, ·)` /
+`set_dataset_metadata(·)`, which are `hypergraph_metadata[layer] = record` - called any number of times for ONE
+field: the tables (hence content and hash) are those of the LAST call alone; no earlier record leaves a trace.
+No hypothesis: when the hypergraph metadata are no dictionary every call is refused and nothing changes. -/
+theorem C07_hattr_last_wins (t : Tables κ) (f : String) (earlier : List JTree) (b : JTree) :
+    run t (earlier.map (Op.setHAttr f) ++ [.setHAttr f b]) = run t [.setHAttr f b] := by
+  induction earlier generalizing t with
+  | nil => rfl
+  | cons a as ih =>
+    have h := ih (step t (.setHAttr f a)).1
+    simp only [run, List.map_cons, List.cons_append, List.foldl_cons, List.foldl_nil] at h ⊢
+    rw [h]
+    simp only [step]
+    exact setHAttr_twice t f a b
+
+/-- `set_node_metadata(n, ·)` called any number of times for one node: only the last record counts -/
+theorem C07_node_meta_last_wins (t : Tables κ) (n : Nat) (earlier : List JTree) (b : JTree) :
+    run t (earlier.map (Op.setNodeMeta n) ++ [.setNodeMeta n b]) = run t [.setNodeMeta n b] := by
+  induction earlier generalizing t with
+  | nil => rfl
+  | cons a as ih =>
+    have h := ih (step t (.setNodeMeta n a)).1
+    simp only [run, List.map_cons, List.cons_append, List.foldl_cons, List.foldl_nil] at h ⊢
+    rw [h]
+    simp only [step]
+    exact setNodeMeta_twice t n a b
+
+/-- `set_edge_metadata(k, ·)` called any number of times for one hyperedge (node-listing order of `k` free in
+every call is covered by `C07_listing_order`): only the last record counts -/
+theorem C07_edge_meta_last_wins (t : Tables κ) (k : κ) (earlier : List JTree) (b : JTree) :
+    run t (earlier.map (Op.setEdgeMeta k) ++ [.setEdgeMeta k b]) = run t [.setEdgeMeta k b] := by
+  induction earlier generalizing t with
+  | nil => rfl
+  | cons a as ih =>
+    have h := ih (step t (.setEdgeMeta k a)).1
+    simp only [run, List.map_cons, List.cons_append, List.foldl_cons, List.foldl_nil] at h ⊢
+    rw [h]
+    simp only [step]
+    exact setEdgeMeta_twice t k a b
+
+/-- `set_hypergraph_metadata(·)` called any number of times: only the last dictionary counts -/
+theorem C07_hmeta_last_wins (t : Tables κ) (earlier : List JTree) (b : JTree) :
+    run t (earlier.map Op.setHMeta ++ [.setHMeta b]) = run t [.setHMeta b] := by
+  induction earlier generalizing t with
+  | nil => rfl
+  | cons a as ih =>
+    have h := ih (step t (.setHMeta a)).1
+    simp only [run, List.map_cons, List.cons_append, List.foldl_cons, List.foldl_nil] at h ⊢
+    rw [h]
+    rfl
+
+/-- the hash after repeated calls of one hypergraph-metadata setter is the hash after the last call alone -/
+theorem C07_repeated_setter_hash {Digest : Type} (dumps : JTree → String) (H : String → Digest) (t : Tables κ)
+    (f : String) (earlier : List JTree) (b : JTree) :
+    hashOf dumps H (run t (earlier.map (Op.setHAttr f) ++ [.setHAttr f b])) = hashOf dumps H (run t [.setHAttr f b]) := by
+  rw [C07_hattr_last_wins]
+
+/-- one iteration of `remove_node(n, keep_edges=True)` on an incident hyperedge `k` (id `id`) whose remainder `k'` is a
+hyperedge: it IS `add_edge(k', weight-of-k, metadata-of-k)` after `remove_edge(k)` - so when `k'` is there already its
+weight grows by the weight of `k` (weighted) and its record is replaced, exactly as for any repeated insertion.
+Hypotheses: `id` is a live id (it comes from the adjacency list of `n`) and the remainder is non-empty. -/
+theorem C07_shrink_is_add_edge (t : Tables κ) (n id : Nat) (k k' : κ) (hk : get? t.rev id = some k)
+    (hs : Kind.shrink k n = some k') :
+    shrinkIncident n t id =
+      (addEdge (removeEdge t k).1 k' (some ((get? t.weights id).getD (.int 1)))
+        (some ((get? t.edgeMeta id).getD emptyObj))).1 := by
+  simp [shrinkIncident, hk, hs]
+
+namespace C07Ex
+/-- the histories of the seeded change C07-e3 (layers as ranks in keys, as names in the hypergraph metadata): the
+record of layer "social" set twice, the second record lacking a field of the first -/
+def draft : JTree := .obj [("draft", .bool true), ("source", .str "old")]
+def final : JTree := .obj [("source", .str "v2")]
+def exLay2 : List (Op KM) := [.addEdge ([1, 2, 3], 0) none none, .setHAttr "social" draft, .setHAttr "work" emptyObj,
+  .setHAttr "social" final]
+def exLay1 : List (Op KM) := [.addEdge ([3, 2, 1], 0) none none, .setHAttr "work" emptyObj, .setHAttr "social" final]
+example : preimage? (run (init KM false []) exLay2) = preimage? (run (init KM false []) exLay1) := by rfl
+example : run (init KM false []) ([draft, emptyObj].map (Op.setHAttr "social") ++ [.setHAttr "social" final]) =
+    run (init KM false []) [.setHAttr "social" final] := C07_hattr_last_wins _ _ _ _
+/-- number of fields of the record stored under "social" -/
+def socialFields : JTree → Nat
+  | .obj l => match get? l "social" with
+    | some (.obj r) => r.length
+    | _ => 0
+  | _ => 0
+/-- a merging setter (the seeded change) would leave two fields in the record: another content -/
+example : socialFields (run (init KM false []) exLay2).hmeta = 1 := by rfl
+example : socialFields (run (init KM false []) exLay1).hmeta = 1 := by rfl
+example : run (init KH false []) ([emptyObj, draft].map (Op.setNodeMeta 1) ++ [.setNodeMeta 1 final]) =
+    run (init KH false []) [.setNodeMeta 1 final] := C07_node_meta_last_wins _ _ _ _
+example : (run (run (init KH false []) [.addNode 1 none]) ([draft].map (Op.setNodeMeta 1) ++ [.setNodeMeta 1 final])).nodeMeta
+    = [(1, final)] := by rfl
+example : (run (run (init KT false []) [.addEdge (0, [1, 2]) none none])
+    ([draft].map (Op.setEdgeMeta (0, [2, 1])) ++ [.setEdgeMeta (0, [1, 2]) final])).edgeMeta = [(0, final)] := by rfl
+
+/-- the histories of the seeded change C07-e1: weighted, `(2,3)` w=2, `(1,2,3)` w=5, node 1 removed with
+`keep_edges=True` = `(2,3)` inserted with 2 and again with 5 = `(2,3)` w=7 -/
+def exShrink : List (Op KH) :=
+  [.addEdge [2, 3] (some (.int 2)) (some (.obj [("k", .str "old")])), .addEdge [1, 2, 3] (some (.int 5)) (some (.obj [("k", .str "new")])),
+   .removeNode 1 true]
+def exTwice : List (Op KH) :=
+  [.addEdge [3, 2] (some (.int 2)) (some (.obj [("k", .str "old")])), .addEdge [2, 3] (some (.int 5)) (some (.obj [("k", .str "new")]))]
+def exOnce : List (Op KH) := [.addEdge [2, 3] (some (.int 7)) (some (.obj [("k", .str "new")]))]
+example : preimage? (run (init KH true []) exShrink) = preimage? (run (init KH true []) exTwice) := by rfl
+example : preimage? (run (init KH true []) exShrink) = preimage? (run (init KH true []) exOnce) := by rfl
+example : (content (run (init KH true []) exShrink)).edges = [([2, 3], .int 7, .obj [("k", .str "new")])] := by rfl
+/-- the seeded in-place rename would leave weight 5: another content, another pre-image (`C07_differ_weight`) -/
+example : canon (content (run (init KH true []) exShrink)) ≠
+    canon (content (run (init KH true []) [.addEdge [2, 3] (some (.int 5)) (some (.obj [("k", .str "new")]))])) :=
+  C07_differ_weight _ _ (content_WF (run_wf (init_wf KH true []) _)) [2, 3] (.int 7) (.int 5)
+    (.obj [("k", .str "new")]) (.obj [("k", .str "new")])
+    (by show _ ∈ [_]; exact List.mem_singleton.mpr rfl) (by show _ ∈ [_]; exact List.mem_singleton.mpr rfl) (by decide)
+/-- `C07_shrink_is_add_edge` on that state (id 1 is the hyperedge (1,2,3)) -/
+example : shrinkIncident 1 (run (init KH true []) (exShrink.take 2)) 1 =
+    (addEdge (removeEdge (run (init KH true []) (exShrink.take 2)) [1, 2, 3]).1 [2, 3] (some (.int 5))
+      (some (.obj [("k", .str "new")]))).1 :=
+  C07_shrink_is_add_edge _ 1 1 [1, 2, 3] [2, 3] (by rfl) (by rfl)
+/-- two shrunken hyperedges meeting each other (directed: the node on the source side of one, on the target side of
+the other; one call) -/
+def exSides : List (Op KD) :=
+  [.addEdge ([1, 9], [2]) (some (.int 3)) none, .addEdge ([1], [9, 2]) (some (.int 4)) none, .removeNode 9 true]
+example : preimage? (run (init KD true []) exSides) =
+    preimage? (run (init KD true []) [.addEdge ([1], [2]) (some (.int 7)) none]) := by rfl
 end C07Ex
